@@ -41,6 +41,7 @@ static const char *dname[] = { "read", "write" };
 
 static int nbev, use_group;
 static long burstA = 200, gburst = 300;   /* -P burstA= / -P gburst=: bursts of cfgA and of the group (rates 100 / 150) */
+static long gwrate = 150, gwburst = 300; /* -P gwrate= / -P gwburst=: the group's write side, for asymmetric groups */
 static struct event_base *base;
 static struct bufferevent *bev[NB];
 static int fd[NB][2];
@@ -387,6 +388,7 @@ static void body(void)
 	int idle0 = mc_param("idle0", 0);     /* preamble: reading never enabled, idle0 idle ticks, limits polled every tick */
 	int adv3 = mc_param("adv3", 0);       /* extra op: three idle ticks in a row */
 	burstA = mc_param("burstA", 200); gburst = mc_param("gburst", 300);
+	gwrate = mc_param("gwrate", 150); gwburst = mc_param("gwburst", (int)gburst);
 	nbev = mc_param("nbev", 1); if (nbev > NB) nbev = NB;
 	use_group = mc_param("group", 0);
 	if (fd_base < 0) { fd_base = dup(0); close(fd_base); }
@@ -402,14 +404,14 @@ static void body(void)
 	base->weakrand_seed.seed = 4242;
 	cfgA = ev_token_bucket_cfg_new(100, (size_t)burstA, 100, (size_t)burstA, &tick);
 	cfgB = ev_token_bucket_cfg_new(50, 100, 50, 100, &tick);
-	gcfg = ev_token_bucket_cfg_new(150, (size_t)gburst, 150, (size_t)gburst, &tick);
+	gcfg = ev_token_bucket_cfg_new(150, (size_t)gburst, (size_t)gwrate, (size_t)gwburst, &tick);
 	if (!cfgA || !cfgB || !gcfg) { mc_fail("C22/harness/setup", "cfg_new"); goto out; }
 	if (use_group) {
 		grp = bufferevent_rate_limit_group_new(base, gcfg);
 		if (!grp) { mc_fail("C22/harness/setup", "group_new"); goto out; }
 		grp->weakrand_seed.seed = 777;
 		if (minshare >= 0) bufferevent_rate_limit_group_set_min_share(grp, (size_t)minshare);
-		bk_config(&gbk[R], 150, gburst); bk_config(&gbk[W], 150, gburst);
+		bk_config(&gbk[R], 150, gburst); bk_config(&gbk[W], gwrate, gwburst);
 	}
 	for (int i = 0; i < nbev; i++) {
 		if (socketpair(AF_UNIX, SOCK_STREAM | SOCK_NONBLOCK, 0, fd[i]) < 0) { mc_fail("C22/harness/setup", "socketpair"); goto out; }
